@@ -1,10 +1,80 @@
-(* C07 -- placeholder until the ownership theorems are integrated *)
+(* C07 -- the database stores values, not references: no aliasing in, out, or inside.
+   Ownership model: Model/Heap.v; run and invariant: Proofs/C07Proofs.v (hrun, run_keys_wf);
+   counterexamples (each flag, and the premise run_keys_wf): Refuted/C07.v.
+
+   run_keys_wf pre5 empty_coll hs: every store key the value-level model (Coll.step) meets
+   before a collection operation of hs is a well-formed value (no dict with a repeated key,
+   which every Python value is).  It cannot be dropped: Refuted/C07.v, nonwf_keys_alias. *)
 From Coq Require Import ZArith List String Bool.
 From Verif Require Import Value Coll Heap.
 From Verif.Gen Require Import CopySites.
+From Verif Require Import C07Base C07Proofs C07Here.
 Import ListNotations.
 Open Scope Z_scope.
 Open Scope string_scope.
+
+(* 1. with every copying flag on, after every step of every run from the empty database the
+      stored documents share nothing with one another, with the argument objects (negative
+      identities) or with the returned object *)
+Theorem C07_no_aliasing : forall fl, all_copy fl = true ->
+  forall pre5 (hs : list (hop * ids)),
+  Forall (fun ha => Forall (fun x => x < 0) (snd ha)) hs ->
+  run_keys_wf pre5 empty_coll hs = true ->
+  Forall2 (fun ha out => apart_after (h_own (ho_state out)) (snd ha) (ho_result_ids out) = true)
+          hs (snd (hrun fl pre5 h_init hs)).
+Proof. exact no_aliasing. Qed.
+Print Assumptions C07_no_aliasing.
+
+(* the state invariant behind it *)
+Theorem C07_state_invariant : forall fl, all_copy fl = true ->
+  forall pre5 (hs : list (hop * ids)),
+  Forall (fun ha => Forall (fun x => x < 0) (snd ha)) hs ->
+  run_keys_wf pre5 empty_coll hs = true ->
+  Forall (fun out =>
+            h_next (ho_state out) > 0
+            /\ Forall (fun ks => Forall (fun x => 0 < x < h_next (ho_state out)) (snd ks))
+                      (h_own (ho_state out))
+            /\ pairwise_apart (map snd (h_own (ho_state out))) = true)
+         (snd (hrun fl pre5 h_init hs)).
+Proof. exact state_invariant. Qed.
+Print Assumptions C07_state_invariant.
+
+(* 2. the instance for the flags read off the current source *)
 Example C07_sites_copy_here : all_copy here = true.
-Proof. vm_compute. reflexivity. Qed.
+Proof. exact all_copy_here. Qed.
 Print Assumptions C07_sites_copy_here.
+
+Theorem C07_here :
+  forall pre5 (hs : list (hop * ids)),
+  Forall (fun ha => Forall (fun x => x < 0) (snd ha)) hs ->
+  run_keys_wf pre5 empty_coll hs = true ->
+  Forall2 (fun ha out => apart_after (h_own (ho_state out)) (snd ha) (ho_result_ids out) = true)
+          hs (snd (hrun here pre5 h_init hs)).
+Proof. exact no_aliasing_here. Qed.
+Print Assumptions C07_here.
+
+(* 3. the ownership layer never changes the value-level behaviour, whatever the flags *)
+Theorem C07_values_unchanged : forall fl pre5 s,
+  (forall o args,
+     h_coll (ho_state (hstep fl pre5 s (HColl o) args)) = fst (step pre5 (h_coll s) o)
+     /\ ho_result (hstep fl pre5 s (HColl o) args) = snd (step pre5 (h_coll s) o))
+  /\ (forall p args,
+        h_coll (ho_state (hstep fl pre5 s (HAggregate p) args)) = h_coll s
+        /\ h_own (ho_state (hstep fl pre5 s (HAggregate p) args)) = h_own s).
+Proof. exact values_unchanged. Qed.
+Print Assumptions C07_values_unchanged.
+
+(* 4. the ownership table follows the store - same keys, same order - after every collection
+      step from ANY state and for any flags: no premise is needed, not even on the state
+      before (restore rebuilds the table along the new store) *)
+Theorem C07_store_tracks : forall fl pre5 s o args,
+  map fst (h_own (ho_state (hstep fl pre5 s (HColl o) args)))
+  = map fst (docs (h_coll (ho_state (hstep fl pre5 s (HColl o) args)))).
+Proof. exact store_tracks. Qed.
+Print Assumptions C07_store_tracks.
+
+Theorem C07_store_tracks_run : forall fl pre5 hs,
+  Forall (fun out => map fst (h_own (ho_state out)) = map fst (docs (h_coll (ho_state out))))
+         (snd (hrun fl pre5 h_init hs)).
+Proof. exact store_tracks_run. Qed.
+Print Assumptions C07_store_tracks_run.
